@@ -392,29 +392,113 @@ def B3_assign_pipeline(repo, clause):
             removed_stage = True
             detail += " -- the unique key / parameter row of an undefined torsion is not deleted"
     obs.append(Ob("B3", clause, fn, loops[0] if loops else fn.node, ok, detail, slot="dihedral:none-removal", positive=removed_stage))
-    # delete_if_all_in_set: removed iff ALL atoms are in the set
+    # delete_if_all_in_set: a row is removed iff ALL of its atoms are in the set.  The selection predicate (guard of the index append, filter of the index
+    # comprehension, or element of a boolean mask) is evaluated over six abstract rows - (), (in), (out), (in,in), (in,out), (out,out) - against the set {in}:
+    # rows and the set are touched only through set algebra and membership, so these representatives decide the quantifier.
     d = repo.fn("delete_if_all_in_set")
-    tests = [n for n in d.own_nodes() if isinstance(n, ast.Compare)]
-    ok = False
-    if len(tests) == 1:
-        from .common import eq_const
-        e = eq_const(tests[0])
-        apps = [c for c in calls_in(d) if isinstance(c.func, ast.Attribute) and c.func.attr == "append"]
-        if e is not None and apps:
-            pols = [pol for t, pol, k in norm_guards(d, apps[0]) if t is tests[0]]
-            if pols and pols[0] != e[2]:
-                e = None      # the index is recorded when the test FAILS: inverted quantifier
-            elif pols:
-                e = (e[0], e[1], True)
-        lp = [x for x in d.own_nodes() if isinstance(x, ast.For)]
-        tupname = lp[0].target.elts[1].id if lp and isinstance(lp[0].target, ast.Tuple) else None
-        if e is not None and e[1] == 0 and e[2] and isinstance(e[0], ast.Call) and call_name(e[0]) == "len" and isinstance(e[0].args[0], ast.BinOp) \
-                and isinstance(e[0].args[0].op, ast.Sub):
-            l, r = e[0].args[0].left, e[0].args[0].right
-            ok = isinstance(l, ast.Call) and call_name(l) == "set" and ast.unparse(l.args[0]) == tupname and isinstance(r, ast.Name) and r.id == d.params[1]
-        if not ok:
-            ok = "issubset" in ast.unparse(tests[0])
-    obs.append(Ob("B3", clause, d, tests[0] if tests else d.node, ok, "a term is excluded iff all of its atoms are in the exclusion set (set(term) - excluded is empty)", slot="exclusion-quantifier"))
+    arr_p, set_p = d.params[0], d.params[1]
+    pred, rowvar, anchor = None, None, d.node
+    for n in d.own_nodes():
+        if isinstance(n, ast.For) and any(isinstance(x, ast.Name) and x.id == arr_p for x in ast.walk(n.iter)):
+            tv = n.target.elts[1] if isinstance(n.target, ast.Tuple) and len(n.target.elts) == 2 else n.target
+            apps = [c for c in ast.walk(n) if isinstance(c, ast.Call) and isinstance(c.func, ast.Attribute) and c.func.attr == "append"]
+            if isinstance(tv, ast.Name) and len(apps) == 1:
+                gs = [(t, pol) for t, pol, k in norm_guards(d, apps[0], stop=n)]
+                if gs:
+                    rowvar, anchor = tv.id, n
+                    pred = ("and", gs)
+        if isinstance(n, (ast.ListComp, ast.GeneratorExp)) and len(n.generators) == 1 and any(isinstance(x, ast.Name) and x.id == arr_p for x in ast.walk(n.generators[0].iter)):
+            g = n.generators[0]
+            tv = g.target.elts[1] if isinstance(g.target, ast.Tuple) and len(g.target.elts) == 2 else g.target
+            if isinstance(tv, ast.Name):
+                if g.ifs and isinstance(n.elt, ast.Name):
+                    pred, rowvar, anchor = ("and", [(t, True) for t in g.ifs]), tv.id, n
+                elif not g.ifs and not isinstance(n.elt, ast.Name):
+                    pred, rowvar, anchor = ("and", [(n.elt, True)]), tv.id, n
+
+    class _U(Exception):
+        pass
+
+    def _sv(e, env):
+        if isinstance(e, ast.Name):
+            if e.id in env:
+                return env[e.id]
+            raise _U(e.id)
+        if isinstance(e, ast.Constant):
+            return e.value
+        if isinstance(e, ast.Call):
+            f = call_name(e)
+            if isinstance(e.func, ast.Name) and f in ("set", "frozenset", "tuple", "list", "len", "all", "any", "bool", "sorted") and len(e.args) == 1 and not e.keywords:
+                a0 = e.args[0]
+                if f in ("all", "any") and isinstance(a0, (ast.GeneratorExp, ast.ListComp)) and len(a0.generators) == 1 and isinstance(a0.generators[0].target, ast.Name):
+                    g = a0.generators[0]
+                    vals = []
+                    for item in _sv(g.iter, env):
+                        e2 = dict(env, **{g.target.id: item})
+                        if all(_sv(c, e2) for c in g.ifs):
+                            vals.append(_sv(a0.elt, e2))
+                    return all(vals) if f == "all" else any(vals)
+                v = _sv(a0, env)
+                return {"set": set, "frozenset": frozenset, "tuple": tuple, "list": list, "len": len, "all": all, "any": any, "bool": bool, "sorted": sorted}[f](v)
+            if isinstance(e.func, ast.Attribute) and f in ("issubset", "issuperset", "difference", "intersection", "isdisjoint", "union") and len(e.args) == 1:
+                recv = _sv(e.func.value, env)
+                if not isinstance(recv, (set, frozenset)):
+                    raise _U("method on non-set")
+                return getattr(recv, f)(_sv(e.args[0], env))
+            raise _U("call " + str(f))
+        if isinstance(e, ast.UnaryOp) and isinstance(e.op, ast.Not):
+            return not _sv(e.operand, env)
+        if isinstance(e, ast.BoolOp):
+            vals = [_sv(v, env) for v in e.values]
+            return all(vals) if isinstance(e.op, ast.And) else any(vals)
+        if isinstance(e, ast.BinOp) and isinstance(e.op, (ast.Sub, ast.BitAnd, ast.BitOr, ast.BitXor)):
+            l_, r_ = _sv(e.left, env), _sv(e.right, env)
+            if not isinstance(l_, (set, frozenset)) or not isinstance(r_, (set, frozenset)):
+                raise _U("set operator on non-sets")
+            return {ast.Sub: l_ - r_, ast.BitAnd: l_ & r_, ast.BitOr: l_ | r_, ast.BitXor: l_ ^ r_}[type(e.op)]
+        if isinstance(e, ast.Compare) and len(e.ops) == 1:
+            l_, r_ = _sv(e.left, env), _sv(e.comparators[0], env)
+            op = type(e.ops[0])
+            if op in (ast.In, ast.NotIn):
+                return (l_ in r_) == (op is ast.In)
+            try:
+                return {ast.Eq: l_ == r_, ast.NotEq: l_ != r_, ast.Lt: l_ < r_, ast.LtE: l_ <= r_, ast.Gt: l_ > r_, ast.GtE: l_ >= r_}[op]
+            except (KeyError, TypeError):
+                raise _U("comparison")
+        raise _U(type(e).__name__)
+    verdict, why = None, "selection predicate of delete_if_all_in_set not recognised"
+    if pred is not None:
+        rows = [(), ("in",), ("out",), ("in", "in2"), ("in", "out"), ("out", "out2")]
+        try:
+            bad = []
+            for row in rows:
+                env = {rowvar: row, set_p: {"in", "in2"}}
+                got = all(bool(_sv(expand(d, t), env)) == pol for t, pol in pred[1])
+                if got != all(x in env[set_p] for x in row):
+                    bad.append(row)
+            verdict = not bad
+            why = "selection predicate `%s` evaluated on six abstract rows: %s" % (
+                " and ".join(("" if pol else "not ") + ast.unparse(t) for t, pol in pred[1])[:80],
+                "a row is selected exactly when all of its atoms are in the set" if not bad else
+                "WRONG for rows %s (a term with only SOME atoms in the exclusion set is removed, or one with all atoms in it is kept)" % bad)
+        except _U as e_:
+            why = "selection predicate of delete_if_all_in_set is outside the set-algebra language (%s)" % e_
+    dels = [c for c in calls_in(d) if call_name(c) == "delete" and len(c.args) >= 2]
+    rets_d = [n for n in d.own_nodes() if isinstance(n, ast.Return)]
+    flows = False
+    if len(dels) == 1 and len(rets_d) == 1 and any(x is dels[0] for x in ast.walk(expand(d, rets_d[0].value))) or (len(dels) == 1 and len(rets_d) == 1 and any(x is dels[0] for x in ast.walk(rets_d[0].value))):
+        sel_arg = dels[0].args[1]
+        ex = expand(d, sel_arg)
+        if isinstance(anchor, (ast.ListComp, ast.GeneratorExp)):
+            flows = any(x is anchor for x in ast.walk(ex)) or ast.unparse(anchor) in ast.unparse(ex)
+        elif isinstance(anchor, ast.For):
+            apps_ = [c for c in ast.walk(anchor) if isinstance(c, ast.Call) and isinstance(c.func, ast.Attribute) and c.func.attr == "append" and isinstance(c.func.value, ast.Name)]
+            flows = bool(apps_) and isinstance(sel_arg, ast.Name) and sel_arg.id == apps_[0].func.value.id
+        flows = flows and ast.unparse(dels[0].args[0]) == arr_p
+    if verdict is not None and not flows:
+        verdict, why = None, why + "; but the selected rows are not (recognisably) what np.delete removes from the array"
+    obs.append(Ob("B3", clause, d, anchor, verdict is True, "a term is excluded iff all of its atoms are in the exclusion set: " + why, slot="exclusion-quantifier",
+                  positive=verdict is False, undecided=verdict is None))
     # the rows that pass the test are recorded and removed along axis 0 of the term array
     apps = [c for c in calls_in(d) if isinstance(c.func, ast.Attribute) and c.func.attr in ("append", "add")]
     dl = [c for c in calls_in(d) if call_name(c) == "delete"]
